@@ -36,7 +36,8 @@ def validate(ctx, module, traces, stage, extra=None, cfg=_CFG, workers=8, batch_
         if count_states:
             ctx.cov["trace_states_checked"] = ctx.cov.get("trace_states_checked", 0) + r.distinct
         for txt in r.printed():
-            if not (txt.startswith('<<"ACC"') or txt.startswith('<<"REJ"')):
+            head = txt.lstrip("< \n")[:6]          # TLC wraps wide tuples as `<< "REJ",` over several lines
+            if head not in ('"ACC",', '"REJ",'):
                 continue
             v = tlaval.parse(txt)
             tid = v[1]
